@@ -139,7 +139,9 @@ func (s *AddrScenario) Setup(k *sim.Kernel) {
 				err2 := svc.Bind(ctx, st.Addr)
 				rec(i, "rebind", err2)
 				rec(i, "shutdown", svc.Shutdown())
-				if err == nil && first != nil {
+				if err == nil && err2 == nil && first != nil {
+					// (the second Bind replaced the first listener, which leaks; when the
+					// second Bind failed the first one is still the service's to close)
 					first.Close()
 				}
 			case "serve":
